@@ -793,6 +793,12 @@ def r10_option_unfold(toks, stats, which=("map_or", "map", "map_or_else")):
             cf = closure_parts(args[0]) if len(args) == 1 else None
             if cf is None or len(cf[0]) != 1: raise ExtractError("R10: Option::and_then needs a one-parameter closure literal")
             new = T("(match") + recv + T("{ Some(") + cf[0][0] + T(") =>") + [Tok("o", "{", None, 0, True)] + cf[1] + [Tok("c", "}", None, 0, True)] + T(", None => None })")
+        elif name == "filter":
+            # E.filter(|x| B) -> (match E { Some(x) => if B { Some(x) } else { None }, None => None })   (B sees x through one reference more in
+            # the source; method calls and field reads auto-deref, an explicit `*x` would not type-check here: tool error, never a wrong verdict)
+            cf = closure_parts(args[0]) if len(args) == 1 else None
+            if cf is None or len(cf[0]) != 1: raise ExtractError("R10: Option::filter needs a one-parameter closure literal")
+            new = T("(match") + recv + T("{ Some(") + cf[0][0] + T(") => if") + cf[1] + T("{ Some(") + [x.copy() for x in cf[0][0]] + T(") } else { None }, None => None })")
         elif name == "unwrap_or_else":
             # E.unwrap_or_else(|| B) -> (match E { Some(vx_o) => vx_o, None => { B } })
             cd = closure_parts(args[0]) if len(args) == 1 else None
